@@ -11,7 +11,7 @@ import subprocess
 
 VERIF = os.path.dirname(os.path.dirname(os.path.dirname(os.path.abspath(__file__))))
 REPO = os.environ.get("FOLO_REPO", "/repo")
-CACHE = os.path.join(VERIF, ".cache", "mir")
+CACHE = os.path.join(os.environ.get("FOLO_VERIF_CACHE") or os.path.join(VERIF, ".cache"), "mir")
 
 
 class Func:
